@@ -147,9 +147,10 @@ theorem Sim.mono {α} {r : Except Fail α × List Event} {w w' o o' s l} {push :
   · obtain ⟨F', h1, h2⟩ := this
     exact ⟨F', by omega, h2⟩
 
-theorem Sim.stuck {α} {m l' w o o' s l} {push : α → List Slot} :
+theorem Sim.stuck {α} {m l' w o o' s l} {push : α → List Slot}
+    (hm : ¬ ExternMiss m := by decide) :
     Sim ρ P C ((.error (.stuck m), l') : Except Fail α × List Event) w o o' s l push := by
-  intro F _ h; exact absurd h (by simp)
+  intro F _ h; exact absurd h hm
 
 /-- nothing to run -/
 theorem Sim.skip {α} {a : α} {w o s l} {push : α → List Slot} (hp : push a = s) :
